@@ -226,7 +226,9 @@ func derLen(n int) []byte {
 	}
 }
 
-func tlv(tag byte, body []byte) []byte { return append(append([]byte{tag}, derLen(len(body))...), body...) }
+func tlv(tag byte, body []byte) []byte {
+	return append(append([]byte{tag}, derLen(len(body))...), body...)
+}
 
 var oidSignedData = []byte{0x2a, 0x86, 0x48, 0x86, 0xf7, 0x0d, 0x01, 0x07, 0x02}
 var oidData = []byte{0x2a, 0x86, 0x48, 0x86, 0xf7, 0x0d, 0x01, 0x07, 0x01}
